@@ -28,6 +28,11 @@ var (
 
 func main() {
 	flag.Parse()
+	// go/packages looks the go command up through the process PATH: pin the toolchain here so that the
+	// binary also works when it is not started through check.sh
+	os.Setenv("PATH", "/opt/veriftools/go1.26.8/bin:"+os.Getenv("PATH"))
+	os.Setenv("GOTOOLCHAIN", "local")
+	os.Unsetenv("GOWORK")
 	os.Exit(run())
 }
 
@@ -178,7 +183,7 @@ func checkProperty(id, tier string) int {
 		rule := rules[rn]
 		res := runRule(p, rule)
 		if rule.Fixture {
-			fres := runRule(fix, rule)
+			fres := runRuleF(fix, rule, false)
 			if fres.Undecided != "" {
 				res.Undecided = "fixture undecided: " + fres.Undecided
 			} else if len(fres.Findings) == 0 {
